@@ -87,7 +87,13 @@ def run(ctx):
     # ---- seeded structured sample (incl. tie-heavy plans that force multi-round jump-offs)
     n = 12000 if ctx.quick() else 120000
     for i in range(n):
-        if i % 3 != 2:
+        if i % 12 == 0:
+            # long jump-offs of three or four athletes level on clean cards: bars at or below the tied best, mostly cleared
+            na_ = rng.randint(3, 4); nh_ = rng.randint(2, 3)
+            plan_ = iter([x for hh in range(nh_) for x in (['xxx'] * na_ if hh == nh_ - 1 else [rng.choice(['o', 'o', 'xo'])] * na_)])
+            ops, c, r = H.gen_competition(rng, athlib, nath=na_, nheights=nh_, jo_heights=7,
+                                          att_choice=lambda g: next(plan_), jo_letters=('ox', [3, 2]))
+        elif i % 3 != 2:
             ops, c, r = H.gen_competition(rng, athlib, nath=rng.randint(2, 4), nheights=rng.randint(1, 3), jo_heights=3 if ctx.quick() else 5,
                                           att_choice=lambda g: g.choice(['o', 'o', 'o', 'xo', 'xo', 'xxx', 'xxx']), peek=(i % 6 == 1))
         elif i % 2:
